@@ -139,6 +139,7 @@ REGISTRY = {
         "trust": "Trusts ref/e4 (block layout, Split, the section 9.4 assembler as summarised in the statement, the line peer); hook secs1/export_verif.go only wraps unexported code; virtual time (testing/synctest) for T1/T2/T4.",
         "technique": "property-based testing (rapid): differential vs reference codec and assembler (hook-driven and end to end in testing/synctest)",
         "tests": [
+            {"name": "TestC10Secs1Fresh", "shards": 4, "shards_thorough": 16, "crash_is_violation": True},
             {"name": "TestC17Blocks", "shards": 4, "shards_thorough": 16},
             {"name": "TestC17Assembler", "shards": 4, "shards_thorough": 16},
             {"name": "TestC17Line", "shards": 8, "shards_thorough": 16},
@@ -185,6 +186,7 @@ REGISTRY = {
         "trust": "Binary built with -race (a report fails the run); DecodeOwned / DecodeOwnedHSMSPayload transfer ownership and are deliberately not scribbled (documented contract).",
         "technique": "property-based testing (rapid) under the race detector: observation-snapshot metamorphic check over caller-side mutations",
         "tests": [
+            {"name": "TestC12Delivered", "shards": 4, "shards_thorough": 16, "crash_is_violation": True},
             {"name": "TestC12Immutable", "shards": 8, "shards_thorough": 16, "race": True, "crash_is_violation": True, "timeout_thorough": 7200},
         ],
         "require": {"c12:constructed": 217, "c12:counted:false": 154, "c12:counted:true": 155, "c12:decoded": 97},
